@@ -315,7 +315,8 @@ class MarshalSerializer(SerializerBase):
 
     def dumpsCall(self, obj, method, vargs, kwargs):
         vargs = [self.convert_obj_into_marshallable(value) for value in vargs]
-        kwargs = {key: self.convert_obj_into_marshallable(value) for key, value in kwargs.items()}
+        if kwargs:   # the client passes None for batches and attribute access
+            kwargs = {key: self.convert_obj_into_marshallable(value) for key, value in kwargs.items()}
         return marshal.dumps((obj, method, vargs, kwargs))
 
     def dumps(self, data):
